@@ -12,6 +12,7 @@ VERIF = os.path.dirname(os.path.dirname(os.path.abspath(__file__)))
 
 os.environ["PERSIM_VERIF"] = "1"
 os.environ.setdefault("MPLBACKEND", "Agg")
+os.environ.setdefault("PYTHONWARNINGS", "ignore::SyntaxWarning")
 os.environ.setdefault("OMP_NUM_THREADS", "1")
 os.environ.setdefault("OPENBLAS_NUM_THREADS", "1")
 os.environ.setdefault("MKL_NUM_THREADS", "1")
